@@ -98,7 +98,9 @@ br_pem_encode(void *dest, const void *data, size_t len,
 	 * overlap.
 	 */
 	buf = (unsigned char *)d + dlen - len;
-	memmove(buf, data, len);
+	if (len > 0) {
+		memmove(buf, data, len);
+	}
 
 	memcpy(d, "-----BEGIN ", 11);
 	d += 11;
